@@ -383,6 +383,7 @@ def expr_strategy(dspec, nderived):
         return st.one_of(
             st.builds(lambda o, l, r: {"op": o, "l": l, "r": r}, st.sampled_from(["+", "-", "*", "/", "+", "*"]), ch, ch),
             st.builds(lambda l, k: {"op": "**", "l": l, "r": {"k": k}}, ch, st.sampled_from([2.0, -1.0, 3.0])),
+            st.builds(lambda k, r: {"op": "**", "l": {"k": k}, "r": r}, st.sampled_from([2.0, 0.5]), ch),      # constant ** attribute
         )
     def no_constant_subtree(e):
         # Python itself would fold "constant op constant" before glue sees it (and with Python, not numpy, semantics)
